@@ -2703,9 +2703,12 @@ def catch(
         # Error did not match any classes, reraise the error.
         raise error
 
-    # Check cache.
+    # Check cache. The cached form of a catch can embed a value computed under the calling job's
+    # context (`recover(error)`), so a non-empty context is part of the key.
     catch_args = (expr,) + catch_args
-    eval_hash, args_hash = hash_args_eval(scheduler.type_registry, catch, catch_args, {})
+    context = parent_job.get_context()
+    key_args = catch_args + ((context,) if context else ())
+    eval_hash, args_hash = hash_args_eval(scheduler.type_registry, catch, key_args, {})
     # We haven't set an option on the catch task, so we just have to look for one at runtime.
     cache_scope = CacheScope(sexpr._options.get("cache_scope", CacheScope.BACKEND))
     if scheduler._use_cache and cache_scope != CacheScope.NONE:
